@@ -59,7 +59,10 @@ Definition C11_idempotent_full : Prop := forall cw cr, csv_layer_ok cw cr ->
    on the implementation by the check. *)
 Theorem C11_idempotent_refuted :
   exists tbl txs, forallb (valid_tx tbl) txs = true /\ second_differs tbl txs.
-Proof. exists wit_tbl, [wit_buy [32; 120]]. split; apply memo_witness. Qed.
+Proof.
+  exists wit_tbl, [wit_buy [32; 120]].
+  exact (conj (proj1 memo_witness) (proj2 (proj2 (proj2 memo_witness)))).
+Qed.
 Check C11_idempotent_refuted :
   exists tbl txs, forallb (valid_tx tbl) txs = true /\ second_differs tbl txs.
 Print Assumptions C11_idempotent_refuted.
